@@ -558,26 +558,35 @@ func runServerConn(r *eng.Run, s hsServer, p net.Conn, sent func() []byte, writa
 			for _, x := range live {
 				hs.Extensions = append(hs.Extensions, x.Copy(make([]byte, x.Size())))
 			}
-			for _, x := range live {
-				for i := range x.Name {
-					x.Name[i] ^= 0x20
+			// The application edits what it was given, looks at the request
+			// it still holds, and puts the bytes back: what else those bytes
+			// may be shared with (wsflate.Extension.Negotiate answers with
+			// the package's own ExtensionNameBytes as the name) is not this
+			// clause's business (DESIGN §8).
+			flip := func() {
+				for _, x := range live {
+					for i := range x.Name {
+						x.Name[i] ^= 0x20
+					}
+					x.Parameters.ForEach(func(k, v []byte) bool {
+						for i := range k {
+							k[i] ^= 0x20
+						}
+						for i := range v {
+							v[i] ^= 0x20
+						}
+						return true
+					})
 				}
-				x.Parameters.ForEach(func(k, v []byte) bool {
-					for i := range k {
-						k[i] ^= 0x20
-					}
-					for i := range v {
-						v[i] ^= 0x20
-					}
-					return true
-				})
 			}
+			flip()
 			var now []string
 			for _, k := range []string{"Sec-Websocket-Extensions", "Sec-Websocket-Protocol"} {
 				for _, v := range req.Header[k] {
 					now = append(now, k+": "+v)
 				}
 			}
+			flip()
 			if !sameStrings(now, reqKeep) {
 				r.FailProp("C17", "result_aliases_request", "HTTPUpgrader: editing the returned Handshake.Extensions in place changed the request's own header values: now %q, were %q (the result is a view of the request's memory, not a copy)", now, reqKeep)
 			}
